@@ -190,6 +190,7 @@ func checkC14(c *Ctx) {
 
 	checkSideMixing(c, "C14.R0.side-mixing", r)
 	checkLoopCarriedLocations(c, r.Pkg)
+	checkMirrorLoops(c, r)
 	// the names the JSON report gives to codes: a deleted-X must not be called added-X
 	c.Rule("C14.R5.toStringSpecChangeCode", "the JSON name of each change code is its own (total, injective, no row carrying another constant's identifier): a deleted-X is never reported as added-X", 150)
 	c.Rule("C14.R5.toLongStringSpecChangeCode", "the text of each change code is its own (total, injective)", 150)
@@ -658,4 +659,101 @@ func checkLoopCarriedLocations(c *Ctx, pk *packages.Package) {
 	for i := 0; i < n && i < 25; i++ {
 		c.Ok(rule, fmt.Sprintf("diff › loop #%d examined", i+1), "", "no in-place extension of an outer location")
 	}
+}
+
+
+// checkMirrorLoops: a function that looks for items missing on either side does it with two
+// loops — one ranging a collection of spec 1 and looking its keys up in spec 2 ("deleted"), one
+// the other way round ("added"). The two loops must range collections derived the same way
+// (both the allOf-merged properties, or both the direct ones): otherwise an item that is
+// reported deleted from A to B is not reported added from B to A.
+func checkMirrorLoops(c *Ctx, r *goan.Rel) {
+	rule := "C14.R2.mirror-loops"
+	c.Rule(rule, "in a function with presence loops in both directions, the collections ranged from spec 1 and from spec 2 are derived the same way", 8)
+	pk := r.Pkg
+	info := pk.TypesInfo
+	for _, fd := range load.AllFuncs(pk) {
+		fd := fd
+		keys := map[goan.Side]map[string]string{goan.S1: {}, goan.S2: {}}
+		ast.Inspect(fd.Body, func(n ast.Node) bool {
+			rs, ok := n.(*ast.RangeStmt)
+			if !ok {
+				return true
+			}
+			kid, ok := rs.Key.(*ast.Ident)
+			if !ok || kid.Name == "_" {
+				return true
+			}
+			if _, isMap := info.TypeOf(rs.X).Underlying().(*types.Map); !isMap {
+				return true
+			}
+			kobj := info.Defs[kid]
+			sRange := r.SideOf(rs.X)
+			if sRange != goan.S1 && sRange != goan.S2 {
+				return true
+			}
+			ast.Inspect(rs.Body, func(m ast.Node) bool {
+				as, ok := m.(*ast.AssignStmt)
+				if !ok || len(as.Lhs) != 2 || len(as.Rhs) != 1 {
+					return true
+				}
+				ix, ok := ast.Unparen(as.Rhs[0]).(*ast.IndexExpr)
+				if !ok || !identIs(info, ix.Index, kobj) {
+					return true
+				}
+				if sMap := r.SideOf(ix.X); sMap == sRange || (sMap != goan.S1 && sMap != goan.S2) {
+					return true
+				}
+				// only lookups whose miss is acted upon (`!ok`, or an else arm of `if …; ok`): a loop that
+				// merely joins the keys common to both specs has no mirror to agree with
+				okID, _ := as.Lhs[1].(*ast.Ident)
+				if okID == nil || okID.Name == "_" {
+					return true
+				}
+				okObj := info.ObjectOf(okID)
+				missHandled := false
+				ast.Inspect(rs.Body, func(k ast.Node) bool {
+					switch x := k.(type) {
+					case *ast.UnaryExpr:
+						if x.Op == token.NOT && identIs(info, x.X, okObj) {
+							missHandled = true
+						}
+					case *ast.IfStmt:
+						if identIs(info, x.Cond, okObj) && x.Else != nil {
+							missHandled = true
+						}
+					}
+					return true
+				})
+				if !missHandled {
+					return true
+				}
+				keys[sRange][r.TwinKeyResolved(rs.X, fd.Body)] = goan.ExprString(rs.X)
+				return true
+			})
+			return true
+		})
+		if len(keys[goan.S1]) == 0 || len(keys[goan.S2]) == 0 {
+			continue
+		}
+		for k, x := range keys[goan.S1] {
+			_, ok := keys[goan.S2][k]
+			c.Check(ok, rule, fmt.Sprintf("diff.%s › range %s has a mirror loop", load.FuncName(fd), x), c.posOf(pk, fd.Pos()), "a loop over the twin collection of the other spec exists",
+				fmt.Sprintf("the function looks for items of %s missing from the new spec, but its loop(s) in the other direction range %v: an item found missing in one direction is not found added in the other", x, mapValues(keys[goan.S2])))
+		}
+		for k, x := range keys[goan.S2] {
+			_, ok := keys[goan.S1][k]
+			c.Check(ok, rule, fmt.Sprintf("diff.%s › range %s has a mirror loop", load.FuncName(fd), x), c.posOf(pk, fd.Pos()), "a loop over the twin collection of the other spec exists",
+				fmt.Sprintf("the function looks for items of %s missing from the old spec, but its loop(s) in the other direction range %v: an item found added in one direction is not found deleted in the other", x, mapValues(keys[goan.S1])))
+		}
+	}
+}
+
+func mapValues(m map[string]string) []string {
+	var out []string
+	for _, v := range m {
+		out = append(out, v)
+	}
+	sort.Strings(out)
+	return out
 }
